@@ -408,23 +408,57 @@ fn random(args: &Args) {
         // a per-walk bias: which transactions this walk mostly plays with
         let focus: Vec<String> = (0..7).map(|_| rng.pick(&names).clone()).collect();
         let mut steps = 0;
-        // every third walk starts from a scripted structure the properties talk about (dependency chain, two
-        // parents, contract dependency, blob parent, collision with a subtree); names missing from the universe
-        // are skipped
-        const PREAMBLES: [&[&str]; 6] = [
-            &["t1", "t2", "t14"],
-            &["t1", "t6", "t19"],
-            &["t8", "t9"],
-            &["t16", "t18", "t17"],
-            &["t1", "t2", "t5", "t4"],
-            &["t6", "t19", "t1"],
+        // every third walk starts from a directed preamble building a shape the properties talk about, then
+        // continues randomly.  Steps: I:<tx> insert, X:<c> extract with constraint c, S|F:<tx>:<dh>:<o|n>
+        // preconfirmation at height tip+dh with/without outputs, Q:<tx> squeezed-out preconfirmation,
+        // B:<tx>,.. block at the next height (invalid / excluded transactions are left out), E:<tx> expiry.
+        // Steps naming transactions missing from the universe are skipped.
+        const PREAMBLES: [&[&str]; 14] = [
+            &["I:t1", "I:t2", "I:t14"],                               // chain
+            &["I:t1", "I:t6", "I:t19"],                               // two parents
+            &["I:t8", "I:t9"],                                        // contract dependency
+            &["I:t16", "I:t18", "I:t17"],                             // blob parent, blob collision
+            &["I:t1", "I:t2", "I:t5", "I:t4"],                        // collision with a subtree
+            &["I:t6", "I:t19", "I:t1"],                               // parent arriving late
+            &["I:t1", "I:t2", "I:t20", "X:8"],                        // fan-out, count-limited extraction
+            &["I:t1", "I:t2", "I:t20", "X:3", "Q:t1"],                // parent handed out alone, then skipped
+            &["I:t1", "I:t21", "X:3", "Q:t1"],                        // one child spending two outputs, parent skipped
+            &["I:t1", "S:t1:1:n", "S:t1:1:o", "B:", "I:t1"],          // preconfirmed twice, omitted, resubmitted
+            &["I:t4", "X:1", "S:t4:1:o", "F:t4:1:n", "B:", "I:t4"],   // extracted, preconfirmed twice, omitted
+            &["I:t1", "I:t2", "X:3", "S:t1:1:o", "I:t20", "B:", "I:t1"], // rollback with dependents
+            &["I:t1", "I:t20", "I:t2", "X:3", "E:t2", "B:t1"],        // handed out, committed
+            &["I:t8", "X:1", "S:t8:2:o", "I:t9", "B:", "B:"],         // preconfirmed contract creation rolled back
         ];
         if walk % 3 == 0 {
-            for x in PREAMBLES[(walk as usize / 3) % PREAMBLES.len()] {
-                if w.txs.contains_key(*x) {
-                    sim.insert(&mut t, x);
-                    steps += 1;
+            for step in PREAMBLES[(walk as usize / 3) % PREAMBLES.len()] {
+                let f: Vec<&str> = step.split(':').collect();
+                let height = *sim.pool.snapshot().canonical_height;
+                let known = |x: &str| w.txs.contains_key(x);
+                match f[0] {
+                    "I" if known(f[1]) => sim.insert(&mut t, f[1]),
+                    "X" if f[1].parse::<usize>().map(|c| c <= w.u.cstr.len()).unwrap_or(false) => {
+                        sim.extract(&mut t, f[1].parse().unwrap())
+                    }
+                    "S" | "F" if known(f[1]) => {
+                        sim.preconf(&mut t, f[1], f[0], f[3] == "o", height + f[2].parse::<u32>().unwrap_or(1))
+                    }
+                    "Q" if known(f[1]) => sim.preconf(&mut t, f[1], "Q", false, height),
+                    "E" if known(f[1]) => sim.expire(&mut t, &[f[1].to_string()]),
+                    "B" => {
+                        let h = height + 1;
+                        let mut db = sim.abs.clone();
+                        let mut txs = vec![];
+                        for x in f[1].split(',').filter(|x| !x.is_empty()) {
+                            if known(x) && w.u.valid_on(&db, x) && !sim.pre.iter().any(|(ph, pt)| *ph > h && pt == x) {
+                                w.u.apply(&mut db, x);
+                                txs.push(x.to_string());
+                            }
+                        }
+                        sim.block(&mut t, &txs, h)
+                    }
+                    _ => continue,
                 }
+                steps += 1;
             }
         }
         while steps < len {
@@ -446,8 +480,18 @@ fn random(args: &Args) {
                 }
                 60..=67 => {
                     let c = 1 + rng.below(w.u.cstr.len() as u64) as usize;
-                    // mostly unconstrained extraction so that hand-outs happen
-                    let c = if rng.chance(1, 2) { 1 } else { c };
+                    // mostly unconstrained extraction so that hand-outs happen; with dependencies in the pool
+                    // often a finite transaction count, so that promoted dependents meet a partly used budget
+                    let has_deps = snap.nodes.iter().any(|n| !n.dependents.is_empty());
+                    let limited: Vec<usize> =
+                        w.u.cstr.iter().enumerate().filter(|(_, k)| k.txs < 10 && k.gas >= 100).map(|(i, _)| i + 1).collect();
+                    let c = if has_deps && !limited.is_empty() && rng.chance(1, 2) {
+                        *rng.pick(&limited)
+                    } else if rng.chance(1, 2) {
+                        1
+                    } else {
+                        c
+                    };
                     sim.extract(&mut t, c)
                 }
                 68..=76 => {
